@@ -368,6 +368,8 @@ package eval
 //@   ensures [C01,C14] captured: err == nil ==> (captured == (dyntype(selPeer(src, dst, isIngress), *k8s.PodPeer)
 //@         && (exists name string :: governing(pe, peerPod(selPeer(src, dst, isIngress)), isIngress, name))))
 //@   ensures [C01] nocapture: (err == nil && !captured) ==> policiesConns == nil
+//@   ensures [C02] frame: !pe.exposureAnalysisFlag ==> (allKept() && ((err == nil && captured) ==> freshSep(policiesConns.AllowedConns)))
+//@   ensures [C02] pcframe: pcFieldsKept()
 //@   ensures [C01,C14] pts: (err == nil && captured && !pe.exposureAnalysisFlag) ==> (policiesConns != nil && wfCS(policiesConns.AllowedConns)
 //@         && (forall q corev1.Protocol, n int :: {iset(policiesConns.AllowedConns.AllowedProtocols[q].Ports)[n]}
 //@         pts(policiesConns.AllowedConns, q, n) == (exists name string :: governing(pe, peerPod(selPeer(src, dst, isIngress)), isIngress, name)
@@ -416,6 +418,8 @@ package eval
 //@   before call 6 cut:
 //@     assert idx: 0 <= rangeindex && rangeindex < len(netpols) && dyntype(selPeer(src, dst, isIngress), *k8s.PodPeer)
 //@     assert sets: wfCS(allowedConns) && wfCS(policyAllowedConnectionsPerDirection) && sepCS(allowedConns, policyAllowedConnectionsPerDirection)
+//@     assert frame: !pe.exposureAnalysisFlag ==> (allKept() && freshSep(allowedConns))
+//@     assert pcframe: pcFieldsKept()
 //@     assert some: exists name string :: governing(pe, peerPod(selPeer(src, dst, isIngress)), isIngress, name)
 //@     assert members: forall j int :: {netpols[j]} (0 <= j && j < len(netpols)) ==>
 //@         (exists name string :: governing(pe, peerPod(selPeer(src, dst, isIngress)), isIngress, name) && netpols[j] == pe.netpolsMap[peerPod(selPeer(src, dst, isIngress)).Namespace][name])
@@ -443,6 +447,8 @@ package eval
 //@   loop 1 cut:
 //@     invariant wf: wfCS(allowedConns)
 //@     invariant pod: dyntype(selPeer(src, dst, isIngress), *k8s.PodPeer) && len(netpols) > 0
+//@     invariant frame: !pe.exposureAnalysisFlag ==> (allKept() && freshSep(allowedConns))
+//@     invariant pcframe: pcFieldsKept()
 //@     invariant some: exists name string :: governing(pe, peerPod(selPeer(src, dst, isIngress)), isIngress, name)
 //@     invariant complete: forall name string :: {name in pe.netpolsMap[peerPod(selPeer(src, dst, isIngress)).Namespace]} governing(pe, peerPod(selPeer(src, dst, isIngress)), isIngress, name) ==>
 //@         (exists j int :: 0 <= j && j < len(netpols) && netpols[j] == pe.netpolsMap[peerPod(selPeer(src, dst, isIngress)).Namespace][name])
@@ -589,6 +595,11 @@ package eval
 //@   ensures [C02] firstA: (err == nil && captured) ==> scanA(policiesConns, pe, len(pe.sortedAdminNetpols), src, dst, isIngress)
 //@   ensures [C02] firstD: (err == nil && captured) ==> scanD(policiesConns, pe, len(pe.sortedAdminNetpols), src, dst, isIngress)
 //@   ensures [C02] firstP: (err == nil && captured) ==> scanP(policiesConns, pe, len(pe.sortedAdminNetpols), src, dst, isIngress)
+//@   ensures [C02] wf: err == nil ==> (wfPC(policiesConns) && disjPC(policiesConns)
+//@         && freshSep(policiesConns.AllowedConns) && freshSep(policiesConns.DeniedConns) && freshSep(policiesConns.PassConns))
+//@   ensures [C02] kept: allKept() && pcFieldsKept()
+//@   ensures [C02] empty: (err == nil && !captured) ==> (forall q corev1.Protocol, n int :: {iset(policiesConns.AllowedConns.AllowedProtocols[q].Ports)[n]} {iset(policiesConns.DeniedConns.AllowedProtocols[q].Ports)[n]} {iset(policiesConns.PassConns.AllowedProtocols[q].Ports)[n]}
+//@         !pts(policiesConns.AllowedConns, q, n) && !pts(policiesConns.DeniedConns, q, n) && !pts(policiesConns.PassConns, q, n))
 //@   ensures [C02] nocapture: (err == nil && !captured) ==> (forall q corev1.Protocol, n int, a int ::
 //@         {anpIngAt(pe.sortedAdminNetpols[a], src, dst, "Allow", q, n)} {anpIngAt(pe.sortedAdminNetpols[a], src, dst, "Deny", q, n)} {anpIngAt(pe.sortedAdminNetpols[a], src, dst, "Pass", q, n)}
 //@         {anpEgAt(pe.sortedAdminNetpols[a], dst, "Allow", q, n)} {anpEgAt(pe.sortedAdminNetpols[a], dst, "Deny", q, n)} {anpEgAt(pe.sortedAdminNetpols[a], dst, "Pass", q, n)}
@@ -602,7 +613,7 @@ package eval
 //@     assert wf1: wfPC(policiesConns)
 //@     assert wf2: disjPC(policiesConns)
 //@     assert wf3: anpsReady(pe)
-//@     assert wf4: allKept()
+//@     assert wf4: allKept() && pcFieldsKept()
 //@     assert wf5: freshSep(policiesConns.AllowedConns) && freshSep(policiesConns.DeniedConns) && freshSep(policiesConns.PassConns)
 //@     assert s1: wfPC(singleANPConns)
 //@     assert s2: disjPC(singleANPConns)
@@ -625,7 +636,7 @@ package eval
 //@         (0 <= a && a < len(pe.sortedAdminNetpols) && !pts(policiesConns.AllowedConns, q, n) && !pts(policiesConns.DeniedConns, q, n) && !pts(policiesConns.PassConns, q, n))
 //@         ==> !anpAny(pe.sortedAdminNetpols[a], src, dst, isIngress, q, n)
 //@   loop 1 cut:
-//@     invariant wf: wfPC(policiesConns) && disjPC(policiesConns) && anpsReady(pe) && allKept()
+//@     invariant wf: wfPC(policiesConns) && disjPC(policiesConns) && anpsReady(pe) && allKept() && pcFieldsKept()
 //@         && freshSep(policiesConns.AllowedConns) && freshSep(policiesConns.DeniedConns) && freshSep(policiesConns.PassConns)
 //@     invariant firstA: scanA(policiesConns, pe, rangeindex + 1, src, dst, isIngress)
 //@     invariant firstD: scanD(policiesConns, pe, rangeindex + 1, src, dst, isIngress)
@@ -633,3 +644,39 @@ package eval
 //@     invariant covered: forall q corev1.Protocol, n int :: {iset(policiesConns.AllowedConns.AllowedProtocols[q].Ports)[n]} {iset(policiesConns.DeniedConns.AllowedProtocols[q].Ports)[n]} {iset(policiesConns.PassConns.AllowedProtocols[q].Ports)[n]}
 //@         (!pts(policiesConns.AllowedConns, q, n) && !pts(policiesConns.DeniedConns, q, n) && !pts(policiesConns.PassConns, q, n)) ==>
 //@         (forall b int :: {pe.sortedAdminNetpols[b]} (0 <= b && b <= rangeindex) ==> !anpAny(pe.sortedAdminNetpols[b], src, dst, isIngress, q, n))
+
+// the BANP (or the system default when there is none): only its Deny verdicts matter to the result
+//@ fun banpAt(banp *k8s.BaselineAdminNetworkPolicy, src k8s.Peer, dst k8s.Peer, isIngress bool, act string, q string, n int) bool =
+//@     if isIngress then (banpSelects(banp, dst, true) && banpIngAt(banp, src, dst, act, q, n)) else (banpSelects(banp, src, false) && banpEgAt(banp, dst, act, q, n))
+//@ fun banpDenies(pe *PolicyEngine, src k8s.Peer, dst k8s.Peer, isIngress bool, q string, n int) bool =
+//@     pe.baselineAdminNetpol != nil && banpAt(pe.baselineAdminNetpol, src, dst, isIngress, "Deny", q, n)
+//@ pred banpReady(pe *PolicyEngine) = pe.baselineAdminNetpol != nil ==> (banpIngOK(pe.baselineAdminNetpol) && banpEgOK(pe.baselineAdminNetpol))
+//@ func (*PolicyEngine).getXgressDefaultConns
+//@   hide banpSelects, banpIngAt, banpEgAt
+//@   requires pe != nil && banpReady(pe) && realPeer(src) && realPeer(dst) && realDst(dst) && dyntype(dst, *k8s.PodPeer) && dyntype(src, *k8s.PodPeer)
+//@   modifies *
+//@   ensures [C02] wf: res1 == nil ==> (wfPC(res0) && freshSep(res0.AllowedConns) && freshSep(res0.DeniedConns) && freshSep(res0.PassConns))
+//@   ensures [C02] kept: allKept() && pcFieldsKept()
+//@   ensures [C02] denied: res1 == nil ==> (forall q corev1.Protocol, n int :: {iset(res0.DeniedConns.AllowedProtocols[q].Ports)[n]}
+//@         pts(res0.DeniedConns, q, n) == banpDenies(pe, src, dst, isIngress, q, n))
+
+// ---------------------------------------------------------------------------------------------
+// C02, the layers: an ANP Allow wins; an ANP Deny loses; otherwise (Pass, or no ANP verdict) the NetworkPolicies decide if
+// any governs the pod in the direction, and if none does everything the BANP does not deny is allowed
+// ---------------------------------------------------------------------------------------------
+//@ fun anpVerdict(pe *PolicyEngine, src k8s.Peer, dst k8s.Peer, isIngress bool, act string, q string, n int) bool =
+//@     exists a int :: {pe.sortedAdminNetpols[a]} 0 <= a && a < len(pe.sortedAdminNetpols) && anpFirstAt(pe, a, src, dst, isIngress, act, q, n)
+//@ fun npGoverned(pe *PolicyEngine, src k8s.Peer, dst k8s.Peer, isIngress bool) bool =
+//@     exists name string :: governing(pe, peerPod(selPeer(src, dst, isIngress)), isIngress, name)
+//@ fun npAllows(pe *PolicyEngine, src k8s.Peer, dst k8s.Peer, isIngress bool, q string, n int) bool =
+//@     exists name string :: governing(pe, peerPod(selPeer(src, dst, isIngress)), isIngress, name)
+//@              && policyPts(pe.netpolsMap[peerPod(selPeer(src, dst, isIngress)).Namespace][name], src, dst, isIngress, q, n)
+//@ func (*PolicyEngine).allAllowedXgressConnections
+//@   hide anpSelects, anpIngAt, anpEgAt, banpSelects, banpIngAt, banpEgAt, peerMatch, portMatch, governs, ingressPolicyPts, egressPolicyPts
+//@   requires pe != nil && !pe.exposureAnalysisFlag && anpsReady(pe) && netpolsOK(pe) && banpReady(pe)
+//@   requires realPeer(src) && realPeer(dst) && realDst(dst) && dyntype(dst, *k8s.PodPeer) && dyntype(src, *k8s.PodPeer)
+//@   modifies *
+//@   ensures [C02] precedence: err == nil ==> (wfCS(allowedConns) && (forall q corev1.Protocol, n int :: {iset(allowedConns.AllowedProtocols[q].Ports)[n]}
+//@         pts(allowedConns, q, n) == (isPP(q, n) && (anpVerdict(pe, src, dst, isIngress, "Allow", q, n)
+//@              || (!anpVerdict(pe, src, dst, isIngress, "Deny", q, n)
+//@                  && (if npGoverned(pe, src, dst, isIngress) then npAllows(pe, src, dst, isIngress, q, n) else !banpDenies(pe, src, dst, isIngress, q, n)))))))
